@@ -12,7 +12,7 @@ Br == ToSet(e.broken)
 
 TInit == /\ l = 1 /\ bad = FALSE
          /\ full = <<>> /\ endKind = "eof" /\ rdN = 0 /\ rdEnd = "no" /\ absStart = 0 /\ absPos = 0
-         /\ freed = 0 /\ reported = 0 /\ handed = {} /\ size = 0 /\ maxSpan = 0 /\ maxLag = 0
+         /\ freed = 0 /\ reported = 0 /\ handed = {} /\ size = 0 /\ maxSpan = 0 /\ maxLag = 0 /\ memk = -1
 
 IsStart == e.ev = "New"
 
@@ -35,7 +35,7 @@ Step ==
 Returned == e.out = "ret"
 
 TStart == /\ l <= NEvents /\ IsStart
-          /\ IF e.mode = "bytes" THEN NewBytes(e.data) ELSE New(e.data, e.endKind, e.size)
+          /\ IF e.mode = "bytes" THEN NewBytes(e.data) ELSE New(e.data, e.endKind, e.size, IF "memk" \in DOMAIN e THEN e.memk ELSE -1)
           /\ bad' = FALSE /\ l' = l + 1
 TStep  == /\ l <= NEvents /\ ~IsStart /\ ~bad
           /\ Returned /\ Step
@@ -51,4 +51,7 @@ TNext == TStart \/ TStep \/ TFail \/ TSkip
 TSpec == TInit /\ [][TNext]_tvars
 TInv == bad \/ Inv
 Accepted == TLCGet("stats").diameter = NEvents + 1
+\* The trace specification is deterministic: there is exactly one state per position l, so states are told apart by l alone.
+\* (Fingerprinting the whole state would cost time proportional to the length of `full` at every event of a long stream.)
+TView == <<l, bad>>
 =============================================================================
